@@ -53,7 +53,7 @@ func TestBoundedRoundTripGrammar(t *testing.T) {
 		{"saddr_fam", []string{"2", "10"}, ops, "exit"},
 		{"perm", []string{"r", "w", "x", "a", "rw", "rwxa", "wa", "xr"}, []string{"="}, "exit"},
 		{"filetype", []string{"file", "dir", "socket", "symlink", "char", "block", "fifo"}, eqOps, "exit"},
-		{"arch", []string{"b64", "b32", "x86_64", "i386", "aarch64"}, eqOps, "exit"},
+		{"arch", []string{"b64", "b32", "aarch64", "arm", "armeb", "c6x", "c6xbe", "cris", "frv", "h8300", "i386", "ia64", "loongarch32", "loongarch64", "m32r", "m68k", "mips", "mips64", "mips64n32", "mipsel", "mipsel64", "mipsel64n32", "nios2", "parisc", "parisc64", "ppc", "ppc64", "ppc64le", "s390", "s390x", "sh", "sh64", "shel", "shel64", "sparc", "sparc64", "x86_64"}, eqOps, "exit"}, // every name of auparse.AuditArchNames (foreign 32-bit arches must not be listed as b32)
 		{"msgtype", []string{"1100", "USER_LOGIN", "1305", "SYSCALL", "65535", "70000"}, ops, "user"},
 		{"msgtype", []string{"1100", "EXECVE"}, ops, "exclude"},
 		{"path", []string{"/etc/passwd", "/", "/a=b", "/x&y"}, eqOps, "exit"},
